@@ -10,7 +10,7 @@ either still at their initial constants (A) or hold *some earlier candidate*  pc
 import copy
 from fractions import Fraction as Fr
 
-from ..terms import (Poly, B, INF, TRUE, FALSE, ZERO, ONE, NAN, bconst, bnot, cmp_term, as_poly, t_mod, t_idiv, t_min, t_max,
+from ..terms import (t_abs, Poly, B, INF, TRUE, FALSE, ZERO, ONE, NAN, bconst, bnot, cmp_term, as_poly, t_mod, t_idiv, t_min, t_max,
                      t_shr, t_bitand, t_shl, t_f2i)
 from ..interp import (Interp, State, Num, BoolV, StructV, EnumV, TupleV, RefV, ContV, Opaque, UnitV, InterpError)
 from ..models import _pushed_elems
@@ -522,6 +522,12 @@ class SearchRun:
             else:
                 for l, v in saved.items():
                     st.cells[fr.locals[l]] = v
+        if depth == 1 and self.acc_locals:
+            # accumulators at the head of the candidate iteration about to be analysed (R-ARGMIN compares the back edges with them)
+            st.tags['search_pre'] = {l: st.cells[fr.locals[l]].term for l in self.acc_locals if isinstance(st.cells.get(fr.locals.get(l)), Num)}
+            st.tags['search_inner_head'] = head
+            self.visits = getattr(self, 'visits', 0) + 1
+            st.tags['search_visit'] = self.visits     # one analysed iteration per path reaching the inner loop head
 
 
 def inv_B(qz, t, ctx):
@@ -547,6 +553,7 @@ def check_search(res, facts, prop):
            'HALF_STEP=%d ONE_OCTAVE=%d MAX_OCTAVE=%d (12 half steps must fill an octave up to a drift < one half step over the whole range)' % (H, O, qz.MAX_OCT))
     n_ret = 0
     n_back = 0
+    n_step = 0
     orders_seen = 0
     for modes in (('A', 'A'), ('A', 'B'), ('B', 'B')):
         it = qz.interp()
@@ -653,8 +660,149 @@ def check_search(res, facts, prop):
                            'best candidate at the back edge = %r: %s' % (cur.term, why), where, key='R-SEARCH:inductive:%s%s:%d' % (modes[0], modes[1], n_back))
             elif o.status in ('panic', 'stuck'):
                 res.ob('R-SEARCH', inst0, False, 'path ends with %s: %s' % (o.status, o.panic_info), where, key='R-SEARCH:%s:%s' % (inst0, o.status))
+        if prop == 'C08':
+            n_step += check_argmin_steps(res, qz, run, outs, vin, inst0, where)
     res.floor('search_returns', n_ret, 6)
     res.floor('search_back_edges', n_back, 4)
     if prop == 'C08':
         res.floor('octave_lists', orders_seen, 3)
+        res.floor('argmin_steps', n_step, 30)
     return n_ret
+
+
+def _abs_cmp(ctx, op, d, x):
+    """decide `|d| op x` from the path facts without knowing the sign of d (None = undecided is reported as False)"""
+    a = t_abs(d, ctx)
+    if op == 'Eq' and (a == x or ctx.sem_eq(a, x)):
+        return True
+    if op != 'Eq' and ctx.decide(cmp_term(op, a, x)) is True:
+        return True
+    if op != 'Eq':
+        # sign of d known on this path: |d| is d or -d
+        if ctx.decide(cmp_term('Ge', d, ZERO)) is True:
+            return ctx.decide(cmp_term(op, d, x)) is True
+        if ctx.decide(cmp_term('Le', d, ZERO)) is True:
+            return ctx.decide(cmp_term(op, -d, x)) is True
+    if op == 'Lt':
+        return ctx.decide(cmp_term('Lt', d, x)) is True and ctx.decide(cmp_term('Lt', -d, x)) is True
+    if op == 'Le':
+        return ctx.decide(cmp_term('Le', d, x)) is True and ctx.decide(cmp_term('Le', -d, x)) is True
+    if op == 'Ge':
+        return ctx.decide(cmp_term('Ge', d, x)) is True or ctx.decide(cmp_term('Ge', -d, x)) is True
+    if op == 'Gt':
+        return ctx.decide(cmp_term('Gt', d, x)) is True or ctx.decide(cmp_term('Gt', -d, x)) is True
+    if op == 'Eq':
+        return ((d == x or ctx.sem_eq(d, x)) and ctx.decide(cmp_term('Ge', d, ZERO)) is True) or \
+               ((-d == x or ctx.sem_eq(-d, x)) and ctx.decide(cmp_term('Le', d, ZERO)) is True)
+    raise ValueError(op)
+
+
+def check_argmin_steps(res, qz, run, outs, vin, inst0, where):
+    """R-ARGMIN: one iteration of the candidate scan, from an arbitrary accumulator state (best0, dist0) at the inner loop
+    head, is one step of a running arg-min over |vin - candidate| with sound early exits:
+      candidate disabled          -> (best, dist) unchanged
+      |d| < H                     -> the only way out is returning the candidate itself (continuing / returning best need |d| >= H)
+      return best                 -> only when dist0 <= |d|   (the scan has passed the nearest candidate)
+      continue with (c, |d|)      -> only when |d| <= dist0
+      continue with (best0,dist0) -> only when dist0 <= |d|
+    Together with ascending candidates (R-SEARCHORDER) this is the premise set of the nearest-note lemma (DESIGN §6 C08)."""
+    H, O = qz.H, qz.O
+    if not run.acc_locals or len(run.acc_locals) != 2:
+        return 0
+    best_l = [l for l, vv in run.acc_locals.items() if vv.term.const_value() == 0][0]
+    dist_l = [l for l in run.acc_locals if l != best_l][0]
+    # pass 1: the candidate of each analysed iteration = the term returned by a close return / stored by an update
+    cands = {}
+    for o in sem_iter(outs, include_loopback=True):
+        pre = o.state.tags.get('search_pre')
+        if not pre or best_l not in pre or dist_l not in pre:
+            continue
+        visit = o.state.tags.get('search_visit')
+        best0, dist0 = pre[best_l], pre[dist_l]
+        fr = o.state.frames[-1] if o.state.frames else None
+        term = None
+        if o.status == 'returned' and isinstance(o.ret, Num):
+            pcs = t_mod(o.ret.term, Poly.const(12), o.ctx)
+            octs = t_idiv(o.ret.term, Poly.const(12), o.ctx)
+            volt = pcs.scale(H) + octs.scale(O)
+            if not (volt == best0 or o.ctx.sem_eq(volt, best0)):
+                term = volt
+        elif o.status == 'loopback' and fr is not None and fr.fn['path'] == run.fn_path:
+            b1 = o.cells.get(fr.locals.get(best_l))
+            if isinstance(b1, Num) and not (b1.term == best0 or o.ctx.sem_eq(b1.term, best0)):
+                term = b1.term
+        if term is not None:
+            lst = cands.setdefault(visit, [])
+            if not any(term == u for u in lst):
+                lst.append(term)
+    inst = inst0 + '|step'
+    ok_c = bool(cands) and all(len(v) == 1 for v in cands.values())
+    if not res.ob('R-ARGMIN', inst + '|one candidate per iteration', ok_c,
+                  'candidate terms stored / returned by one iteration of the scan: %r (expected exactly one per analysed iteration: n*H + k*O of the loop indices)' % (cands,), where,
+                  key='R-ARGMIN:candidate:%s' % inst0):
+        return 0
+    n = 0
+    for o in sem_iter(outs, include_loopback=True):
+        pre = o.state.tags.get('search_pre')
+        if not pre or best_l not in pre or dist_l not in pre:
+            continue
+        best0, dist0 = pre[best_l], pre[dist_l]
+        fr = o.state.frames[-1] if o.state.frames else None
+        ctx = o.ctx
+        if o.state.tags.get('search_visit') not in cands:
+            continue    # an iteration none of whose paths stores or returns a candidate (cannot happen for a scan; floors guard it)
+        c = cands[o.state.tags.get('search_visit')][0]
+        d = vin - c
+        pc = t_mod(t_idiv(c, Poly.const(H), ctx), Poly.const(12), ctx)
+        en = ctx.decide(qz.enabled(Poly.sym('self.allowed'), pc, ctx))
+        if o.status == 'loopback':
+            if fr is None or fr.fn['path'] != run.fn_path:
+                continue
+            n += 1
+            b1 = o.cells.get(fr.locals.get(best_l))
+            d1 = o.cells.get(fr.locals.get(dist_l))
+            if not (isinstance(b1, Num) and isinstance(d1, Num)):
+                res.ob('R-ARGMIN', inst + '|accumulators', False, 'accumulators at the back edge: %r, %r' % (b1, d1), where, key='R-ARGMIN:acc:%s:%d' % (inst0, n))
+                continue
+            same_best = b1.term == best0 or ctx.sem_eq(b1.term, best0)
+            same_dist = d1.term == dist0 or ctx.sem_eq(d1.term, dist0)
+            to_inner = o.state.tags.get('loopback_target') == o.state.tags.get('search_inner_head')
+            if not to_inner or en is False:
+                # inner scan finished, or the pitch class of this candidate is disabled: nothing may change
+                res.ob('R-ARGMIN', inst + '|%s leaves the best candidate and its distance alone' % ('end of the pitch-class scan' if not to_inner else 'disabled pitch class'),
+                       same_best and same_dist, 'best %r -> %r, distance %r -> %r' % (best0, b1.term, dist0, d1.term), where, key='R-ARGMIN:keep:%s:%d' % (inst0, n))
+                continue
+            if en is not True:
+                res.ob('R-ARGMIN', inst + '|candidate enabled-ness decided on every path', False,
+                       'a path through one iteration neither tests nor excludes bit %r of the scale' % (pc,), where, key='R-ARGMIN:undecided:%s:%d' % (inst0, n))
+                continue
+            not_close = _abs_cmp(ctx, 'Ge', d, Poly.const(H))
+            if same_best:
+                ok = same_dist and _abs_cmp(ctx, 'Ge', d, dist0) and not_close
+                res.ob('R-ARGMIN', inst + '|enabled candidate skipped only when it is not closer than the best so far (and not within a half step)', ok,
+                       'continues with (best, distance) = (%r, %r) after candidate %r; path implies distance0 <= |vin-c|: %s, |vin-c| >= H: %s' % (
+                           b1.term, d1.term, c, _abs_cmp(ctx, 'Ge', d, dist0), not_close), where, key='R-ARGMIN:skip:%s:%d' % (inst0, n))
+            else:
+                is_c = b1.term == c or ctx.sem_eq(b1.term, c)
+                ok = is_c and _abs_cmp(ctx, 'Eq', d, d1.term) and _abs_cmp(ctx, 'Le', d, dist0) and not_close
+                res.ob('R-ARGMIN', inst + '|update records (candidate, |vin - candidate|) and only when that is not farther than the best so far', ok,
+                       'continues with (best, distance) = (%r, %r) after candidate %r with distance0 = %r; distance = |vin-c|: %s, |vin-c| <= distance0: %s, |vin-c| >= H: %s' % (
+                           b1.term, d1.term, c, dist0, _abs_cmp(ctx, 'Eq', d, d1.term), _abs_cmp(ctx, 'Le', d, dist0), not_close), where, key='R-ARGMIN:update:%s:%d' % (inst0, n))
+        elif o.status == 'returned' and isinstance(o.ret, Num):
+            n += 1
+            pcs = t_mod(o.ret.term, Poly.const(12), ctx)
+            octs = t_idiv(o.ret.term, Poly.const(12), ctx)
+            volt = pcs.scale(H) + octs.scale(O)
+            if volt == best0 or ctx.sem_eq(volt, best0):
+                if best0 == ZERO and dist0.const_value() is not None:
+                    continue   # initial best: R-SEARCH init exception
+                ok = _abs_cmp(ctx, 'Ge', d, dist0) and _abs_cmp(ctx, 'Ge', d, Poly.const(H))
+                res.ob('R-ARGMIN', inst + '|best so far returned early only when the current candidate is farther (the scan has passed the input)', ok,
+                       'returns the recorded best %r at candidate %r: path implies distance0 <= |vin-c|: %s, |vin-c| >= H: %s' % (
+                           best0, c, _abs_cmp(ctx, 'Ge', d, dist0), _abs_cmp(ctx, 'Ge', d, Poly.const(H))), where, key='R-ARGMIN:passed:%s:%d' % (inst0, n))
+            else:
+                ok = (volt == c or ctx.sem_eq(volt, c)) and en is True and _abs_cmp(ctx, 'Lt', d, Poly.const(H))
+                res.ob('R-ARGMIN', inst + '|candidate returned early only when enabled and within a half step of the input', ok,
+                       'returns %r (voltage %r) at candidate %r: enabled %s, |vin-c| < H: %s' % (o.ret.term, volt, c, en, _abs_cmp(ctx, 'Lt', d, Poly.const(H))),
+                       where, key='R-ARGMIN:close:%s:%d' % (inst0, n))
+    return n
